@@ -299,6 +299,11 @@ def run_function_paths(prog, reg, con, case_assign, max_paths=400, quick_ms=300)
             post.l = LocalsView(ctx, snap1, dict(fr.locals))
             if raised is not None and con.exits is not None and raised not in con.exits(post):
                 ctx.oblige('post.raises-only-declared', False, 'post', 'raised ' + raised)
+            if hasattr(con, 'lemmas'):
+                # instances of lemmas that are proved separately on every run (never free-standing assumptions)
+                for cid, f in con.lemmas(post):
+                    ctx.assume_spec(f)
+                    ctx.trust('lemma %s: instantiated here, proved from the definition of Find by the check itself' % cid)
             for cid, f in con.ensures(post):
                 ctx.oblige('post.' + cid, f, 'post', 'exit: %s' % (raised or 'return'))
             pr.exit = raised or 'return'
